@@ -42,6 +42,8 @@ type c11Gated struct {
 }
 
 type c11Env struct {
+	waitFn  func() // BulkExecutor.Wait / ChunkExecutor.Wait: the public wrappers are what the callers call
+	flushFn func() // BulkExecutor.Flush / ChunkExecutor.Flush
 	pe      *PeriodicalExecutor
 	peek    func() []any
 	mu      sync.Mutex
@@ -59,6 +61,7 @@ type c11Env struct {
 	bgCh    chan struct{}
 	bholder int             // caller that holds pe.wgBarrier for the harness (-1 = nobody)
 	bch     chan string     // releases it: the value names the call the caller goes on with, without yielding
+	unprot  []int           // first tasks of batches whose callback was asked to panic but runs WITHOUT threading.RunSafe on its stack
 	wret    []string        // "<caller>:<k>": a Wait of caller returned after k callback ends of this operation
 	dead    bool            // the watchdog fired in this section: no further operation is attempted
 	stuck   string          // what the watchdog saw
@@ -102,7 +105,7 @@ func c11BarrierPark(ch chan string) string { return <-ch }
 
 // wait calls pe.Wait and records how many callbacks of the current operation had ended when it returned
 func (e *c11Env) wait(w int) {
-	e.pe.Wait()
+	e.waitFn()
 	e.mu.Lock()
 	e.wret = append(e.wret, fmt.Sprintf("%d:%d", w, len(e.newFin)))
 	e.mu.Unlock()
@@ -120,7 +123,7 @@ func (e *c11Env) bhold(w int) {
 		case "wait":
 			e.wait(w)
 		case "flush":
-			e.pe.Flush()
+			e.flushFn()
 		}
 	}
 }
@@ -240,6 +243,17 @@ func (e *c11Env) execute(tasks []any) {
 	e.allFin = append(e.allFin, batch...)
 	e.mu.Unlock()
 	if pan {
+		// a panic that nothing recovers kills the whole test process (and the trace with it): look before leaping
+		buf := make([]byte, 8192)
+		st := string(buf[:runtime.Stack(buf, false)])
+		if !strings.Contains(st, "threading.RunSafe") {
+			e.mu.Lock()
+			if len(batch) > 0 {
+				e.unprot = append(e.unprot, batch[0])
+			}
+			e.mu.Unlock()
+			return
+		}
 		panic("c11 callback panic")
 	}
 }
@@ -499,6 +513,8 @@ func (e *c11Env) observe(self int64) string {
 	ends := append([]int(nil), nf...)
 	wret := e.wret
 	e.wret = nil
+	unprot := e.unprot
+	e.unprot = nil
 	e.mu.Unlock()
 	sort.Strings(cbs)
 	sort.Ints(nf)
@@ -523,6 +539,10 @@ func (e *c11Env) observe(self int64) string {
 		// that returned how many of them had happened before
 		sort.Strings(wret)
 		obs += " ends=" + c11Ints(ends, ",") + " wret=" + strings.Join(wret, ",")
+	}
+	if len(unprot) > 0 {
+		sort.Ints(unprot)
+		obs += " unprot=" + c11Ints(unprot, ",")
 	}
 	return obs
 }
@@ -832,6 +852,44 @@ func c11Barrier(r *verifh.Rng) verifh.Section {
 	return verifh.Section{Cfg: c11Cfg(kind, max, iv, p, gate, 0), Ops: ops}
 }
 
+// c11QuitWindow generates one section of the class "an Add slips in between the flusher's EMPTY tick Flush and the
+// lock of its quit check": the flusher is parked inside the RemoveAll of a tick Flush past the idle bound, a
+// producer armed for the hold point `notfull` waits for the lock; when the flusher is released the two race for
+// the lock (the harness cannot decide the race: the model explores both outcomes, the counter
+// add-slipped-between-empty-tick-flush-and-quit-check says how often the producer won). If the producer wins, its
+// task sits in the container while the flusher quits: only the flusher's deferred Flush executes it.
+func c11QuitWindow(r *verifh.Rng) verifh.Section {
+	kind := r.PickS("bulk", "bulk", "chunk")
+	max := r.Pick(2, 3, 4)
+	if kind == "chunk" {
+		max = r.Pick(5, 8)
+	}
+	iv := r.Pick(1, 10, 1000)
+	id := 1
+	t := func() int { x := c11T(id, 1); id++; return x }
+	ops := []string{fmt.Sprintf("add 0 %d", t()), "tick"}
+	for i := r.Pick(0, 1, 2); i > 0; i-- {
+		ops = append(ops, "tick")
+	}
+	ops = append(ops, fmt.Sprintf("t+ %d", r.Pick(10*iv+1, 10*iv+1, 11*iv, 10*iv)), "hold bg fremoved", "tick",
+		"hold 1 notfull", fmt.Sprintf("add 1 %d", t()), "unhold bg", "unhold 1")
+	switch r.Intn(3) {
+	case 0:
+		ops = append(ops, "tick")
+	case 1:
+		ops = append(ops, fmt.Sprintf("add 0 %d", t()))
+	}
+	ops = append(ops, "drain")
+	return verifh.Section{Cfg: c11Cfg(kind, max, iv, 2, 0, 0), Ops: ops}
+}
+
+func c11NonNeg(x int) int {
+	if x < 0 {
+		return 0
+	}
+	return x
+}
+
 func c11Gen(r *verifh.Rng) []verifh.Section {
 	var secs []verifh.Section
 	// scripted: hand-over window (batch taken by a producer, background busy) then Wait
@@ -874,6 +932,9 @@ func c11Gen(r *verifh.Rng) []verifh.Section {
 	for i := verifh.Scale(24, 400); i > 0; i-- {
 		secs = append(secs, c11Barrier(r))
 	}
+	for i := verifh.Scale(16, 300); i > 0; i-- {
+		secs = append(secs, c11QuitWindow(r))
+	}
 	nsec := verifh.Scale(70, 900)
 	for i := 0; i < nsec; i++ {
 		kind := r.PickS("bulk", "bulk", "chunk")
@@ -884,7 +945,7 @@ func c11Gen(r *verifh.Rng) []verifh.Section {
 		if r.Chance(1, 25) {
 			max = r.Pick(0, -1)
 		}
-		iv := r.Pick(1, 10, 1000)
+		iv := r.Pick(1, 10, 1000, 0)
 		p := r.Range(1, 4)
 		gate := 0
 		pm := r.Pick(0, 0, 5, 7)
@@ -932,11 +993,14 @@ func c11Gen(r *verifh.Rng) []verifh.Section {
 				sz := r.Intn(8)
 				if kind == "chunk" && r.Chance(3, 5) {
 					// aim at the byte threshold: one below, exactly, one above
-					if want := max + r.Pick(-1, 0, 1) - bytes; want >= 0 && want <= 7 {
+					if want := max + r.Pick(-1, 0, 1) - bytes; want >= 0 && want <= 5 {
 						sz = want
 					}
 				}
-				if bytes += sz; bytes >= max {
+				if kind == "chunk" && r.Chance(1, 6) {
+					sz = 0 // zero-size tasks: buffered without moving the byte count
+				}
+				if bytes += c11Size(sz); bytes >= max {
 					bytes = 0
 				}
 				t := c11T(id, sz)
@@ -952,7 +1016,7 @@ func c11Gen(r *verifh.Rng) []verifh.Section {
 			case x < 70:
 				ops = append(ops, "tick")
 			case x < 77:
-				ops = append(ops, fmt.Sprintf("t+ %d", r.Pick(1, iv, 10*iv-1, 10*iv, 10*iv+1, 11*iv, 5*iv)))
+				ops = append(ops, fmt.Sprintf("t+ %d", c11NonNeg(r.Pick(1, iv, 10*iv-1, 10*iv, 10*iv+1, 11*iv, 5*iv))))
 			case x < 81:
 				// force the idle-quit path: more than 10 intervals, two ticks
 				ops = append(ops, fmt.Sprintf("t+ %d", 10*iv+1), "tick", "tick")
@@ -993,8 +1057,17 @@ func c11Gen(r *verifh.Rng) []verifh.Section {
 
 // ---------------------------------------------------------------------------------------------- executor
 
-// a task is the number 8*id + size: the generator chooses the byte size of every chunk task (0..7)
-func c11Size(x int) int { return x % 8 }
+// a task is the number 8*id + size code: the generator chooses the declared byte size of every chunk task:
+// codes 0..5 are the size itself, 6 is a NEGATIVE size (-2), 7 a huge one (2^40)
+func c11Size(x int) int {
+	switch x % 8 {
+	case 6:
+		return -2
+	case 7:
+		return 1 << 40
+	}
+	return x % 8
+}
 
 func TestVerifC11(t *testing.T) {
 	logx.Disable()
@@ -1013,11 +1086,13 @@ func TestVerifC11(t *testing.T) {
 			e.pe = ce.executor
 			e.peek = func() []any { return ce.container.tasks }
 			addFn = func(x int) { _ = ce.Add(x, c11Size(x)) }
+			e.waitFn, e.flushFn = ce.Wait, ce.Flush
 		default:
 			be := NewBulkExecutor(e.execute, WithBulkTasks(max), WithBulkInterval(iv))
 			e.pe = be.executor
 			e.peek = func() []any { return be.container.tasks }
 			addFn = func(x int) { _ = be.Add(x) }
+			e.waitFn, e.flushFn = be.Wait, be.Flush
 		}
 		e.pe.container = &c11HookContainer{inner: e.pe.container, e: e}
 		e.pe.newTicker = func(time.Duration) timex.Ticker {
@@ -1056,7 +1131,7 @@ func TestVerifC11(t *testing.T) {
 					x := verifh.Atoi(op[2])
 					e.workers[w].cmd <- func() { addFn(x) }
 				case "flush":
-					e.workers[w].cmd <- func() { e.pe.Flush() }
+					e.workers[w].cmd <- func() { e.flushFn() }
 				default:
 					e.workers[w].cmd <- func() { e.wait(w) }
 				}
